@@ -82,8 +82,10 @@ class C12(Prop):
         # a half-precision float (65504): the ranks themselves are small exact numbers in every float type
         import math
         for i in range(6 if tier == "quick" else 60):
-            m = [3, 6, 4][i % 3]; per = m * (m + 1) // 2
-            total = math.ceil(65520 / per) + [-1, 0, 1, 7, -40, 300][i % 6]
+            # (at most 2047 voters: pairwise tallies are integers up to the number of voters, and half precision holds the integers up to 2048 exactly; beyond
+            #  that numpy's reductions - carried out in the dtype of the array - are inexact by design: outside the domain, DESIGN.md 10.7)
+            m = [8, 10, 9][i % 3]; per = m * (m + 1) // 2
+            total = math.ceil(65520 / per) + [-1, 0, 1, 7, -40, 150][i % 6]
             ballots = [rng.sample(range(1, m + 1), m) for _ in range(3)]
             w0 = total // 2 + 1 if i % 2 else total // 3
             mults = [w0, (total - w0) // 2, total - w0 - (total - w0) // 2]
